@@ -525,6 +525,20 @@ Section ExpandProofs.
       now rewrite S.
   Qed.
 
+  Theorem border_radius_rule h v :
+    no_slash h -> no_slash v -> v <> [] ->
+    border_radius_inner h = radius_result h h /\
+    border_radius_inner (h ++ TLit "/" :: v) = radius_result h v /\
+    border_radius_inner (h ++ [TLit "/"]) = Invalid /\
+    (forall w, border_radius_inner (h ++ TLit "/" :: v ++ TLit "/" :: w) = Invalid).
+  Proof.
+    intros Hh Hv Hne. repeat split.
+    - now apply border_radius_without_slash.
+    - now apply border_radius_with_slash.
+    - exact (proj1 (border_radius_bad_slashes h v [])).
+    - intro w. exact (proj2 (border_radius_bad_slashes h v w) Hh).
+  Qed.
+
   (* ------------------------------------------------------------------ columns *)
   Variable is_column_width is_column_count : tok -> bool.
   Notation columns_inner := (columns_inner is_column_width is_column_count).
